@@ -76,9 +76,43 @@ var (
 	rangeFuncs   = []string{"rate", "irate", "increase", "delta", "idelta", "deriv", "changes", "resets",
 		"sum_over_time", "avg_over_time", "min_over_time", "max_over_time", "count_over_time", "last_over_time",
 		"present_over_time", "stddev_over_time", "stdvar_over_time", "quantile_over_time", "predict_linear", "holt_winters"}
-	steps  = []int64{1000, 2000, 5000, 10000, 3000, 7000, 14000, 1500, 500, 12000}
-	ranges = []int64{5000, 10000, 30000, 60000, 3000, 20000, 61000, 15000, 1000}
+	steps = []int64{1000, 2000, 5000, 10000, 3000, 7000, 14000, 1500, 500, 12000, 14999}
+	// ranges: below 15 s, exactly 15 s, multiples of 15 s, non-multiples above 15 s
+	ranges = []int64{5000, 10000, 30000, 60000, 3000, 20000, 61000, 15000, 1000, 45000, 14999, 15001, 15000, 30000, 60000}
+	// offsets move the window of a selector: by whole 15 s buckets, by 1 s, by 1 ms
+	offsets = []int64{5000, 7000, 60000, 1000, 15000, 30000, 1, 14999}
 )
+
+// genInstantTime: evaluation time of an instant query (/api/v1/query takes any time, fractional
+// seconds too). Whether Select may read the 15 s roll-up is decided from the alignment of the
+// window (promQueryable.go:142), so two thirds of the times sit exactly on a multiple of 15 s /
+// 30 s / 60 s or 1 ms / 1 s next to one; the rest is anywhere.
+func genInstantTime(rt *rapid.T) int64 {
+	if chance(rt, 33, "anyTime") {
+		t := int64(between(rt, 0, 600, "tHalfSec")) * 500
+		if chance(rt, 30, "oddMs") {
+			t += int64(between(rt, 1, 499, "ms"))
+		}
+		return t
+	}
+	unit := pick(rt, []int64{15000, 30000, 60000}, "alignUnit")
+	t := int64(between(rt, 0, int(300000/unit), "alignK")) * unit
+	if chance(rt, 40, "nextTo") {
+		t += pick(rt, []int64{1, -1, 1000, -1000}, "delta")
+	}
+	return t
+}
+
+// rawOnlyByStep classifies hints (evidence only): nothing but the step clause of the path decision
+// (promQueryable.go:142 useRawData) keeps this Select on the raw samples - window start on a 15 s
+// boundary, range 0 or >= 15 s, and not one of the three functions marked unsupported.
+func rawOnlyByStep(h *storage.SelectHints) bool {
+	switch h.Func {
+	case "quantile_over_time", "stddev_over_time", "stdvar_over_time":
+		return false
+	}
+	return h.Step < 15000 && h.Start%15000 == 0 && (h.Range == 0 || h.Range >= 15000)
+}
 
 // genShape draws a query shape biased to the raw path (promQueryable.go:142: Start%15000 != 0 ||
 // Step < 15000 || 0 < Range < 15000 || a function the down-sampled path does not support).
@@ -98,15 +132,11 @@ func genShape(rt *rapid.T) queryShape {
 		}
 	}
 	if chance(rt, 30, "offset") {
-		q.Offset = pick(rt, []int64{5000, 7000, 60000, 1000, 15000}, "offsetMs")
+		q.Offset = pick(rt, offsets, "offsetMs")
 	}
-	if chance(rt, 25, "instantQuery") {
+	if chance(rt, 35, "instantQuery") {
 		q.Instant = true
-		// /api/v1/query takes any time (fractional seconds)
-		q.Start = int64(between(rt, 0, 600, "tHalfSec")) * 500
-		if chance(rt, 30, "oddMs") {
-			q.Start += int64(between(rt, 1, 499, "ms"))
-		}
+		q.Start = genInstantTime(rt)
 		q.End = q.Start
 		return q
 	}
@@ -377,10 +407,16 @@ func predAsm(c asmCase, o *evid.Obs) error {
 	got, be, err := runSelect(&c.DB, c.Ms, h)
 	restore()
 	if be != nil {
+		// Steps below the down-sampling threshold (step 0 of instant queries included) are the
+		// property's raw-sample path: there a Select answered from the roll-up is judged like any
+		// other answer. At 15 s and above the roll-up is a legitimate choice outside the domain.
 		for _, q := range be.sqlLog() {
 			if strings.Contains(q, "metrics_15s") {
-				o.Discard("downsampled-path")
-				return nil
+				if h.Step >= 15000 {
+					o.Discard("downsampled-path")
+					return nil
+				}
+				o.Tag("roll-up-read-below-threshold")
 			}
 		}
 		if unsup, rec := be.firstErr(); rec != nil {
@@ -470,6 +506,14 @@ func predAsm(c asmCase, o *evid.Obs) error {
 	}
 	if c.Q.Step >= 15000 {
 		o.Tag("step>=15s")
+	}
+	if rawOnlyByStep(h) {
+		if c.Q.Instant {
+			o.Tag("raw-only-by-step-clause:instant")
+		} else {
+			o.Tag("raw-only-by-step-clause:range")
+		}
+		o.Tag("raw-only-by-step-clause:func=" + h.Func)
 	}
 	if edge {
 		o.Tag("sample-on-range-edge")
